@@ -44,6 +44,10 @@ CHECKS = {
   text="Theorem C08_load_error_closed (coq/Props/C08.v): for every registry whose savorize hooks fail only with SeasoningError/RecognitionError, whose declared types are supported, every oracle whose conversion errors concern core-tagged scalars, and EVERY composed document, load returns a value or RecognitionError or a YAML error -- no other exception class (proved by walking every partial operation of recognize, process and construct; the 'good' predicate is closed under bind). Constructors and string-like constructors may raise anything. Half of the property lives before the model: unparseable text raising yaml.YAMLError is observed, not proved.",
   note="Trusted: Coq kernel; load model tied to yatiml on the malformed stream (mutated documents, duplicate/complex/merge keys, explicit core tags on wrong content, cyclic aliases, token soup; ~1700 quick / ~55k thorough) comparing the exception CLASS with the model; the class of the exception leaving load() is judged directly. Crashes inside a user hook body (protocol violation by the hook) are outside the statement.",
   technique=TECH, design='6 C08, 9'),
+ 'C07': dict(
+  text="Theorems in coq/Props/C07.v: (1) the event-driven emitter with its state stack writes exactly the recursive rendering, for trees of every depth/shape and every indent/ensure_ascii option (induction over trees, generalised over the stack, in continuation style); (2) that rendering belongs to the RFC 8259 grammar of Model/Json.v and denotes the tree's JSON projection (so the dump is strict JSON with the same content under every option); (3) every string is written as a valid literal denoting exactly itself, incl. controls, non-BMP (surrogate pairs, arithmetic proved) and lone surrogates; (4) default output is the whitespace-free compact rendering, string literals ASCII-only under ensure_ascii, non-ASCII left unescaped otherwise; (5) int/finite-float images of the representer lie inside the JSON number language (regex certificate).",
+  note="Trusted: Coq kernel + vm_compute; Model/JsonEmit.v tied to Dumper.emit_json by EXHAUSTIVE small trees (<= 4 nodes quick, <= 6 thorough) x 10 indents x 2 ensure_ascii plus string/number pools (44k cases quick), comparing the implementation's text with BOTH the Coq state machine and the Coq printer; Python's strict json.loads judges every text. repr(float)/str(int) images are a model (each number text seen is checked). Load-back clause: by the tie of C05.",
+  technique='Coq proof: simulation of a pushdown emitter by a recursive printer + membership in an inductive RFC 8259 grammar; vm_compute differential correspondence', design='6 C07'),
 }
 
 REASON_TODO = 'check not built yet (work in progress; DESIGN.md section 11 gives the build order)'
